@@ -16,6 +16,7 @@ import WpModel.Model.DescriptorsC07
 import WpModel.Model.NumericC07
 import WpModel.Model.TracksC07
 import WpModel.Model.GradientC07
+import WpModel.Model.GridLineC07
 
 namespace Wp.Drive.C07
 open Wp Wp.Decl
@@ -555,6 +556,23 @@ def handle (cmd : String) (args : List Sx) : Option String :=
     let ctx : Len07.FontCtx := { fontSize := ← fs.rat?, rootFontSize := ← rfs.rat?, exRatio := ← ex.rat?,
                                  chRatio := ← ch.rat? }
     pure (Sx.list ((Tracks07.gridAuto ctx (← allSome track? ts)).map trackSx)).render
+  | "opacity", [tok] => do
+    pure (match Num07.opacityValidate (← ltok? tok) with
+      | none => "invalid"
+      | some q => "num " ++ showRat q)
+  | "grid-line", [.list toks] => do
+    let gtok? (x : Sx) : Option GridLine07.GTok := match x with
+      | .list [.atom "id", l, v] => do pure (.ident (← str? l) (← str? v))
+      | .list [.atom "int", n] => n.int?.map .int
+      | .atom "other" => some .other
+      | _ => none
+    let optS (o : Option String) : String := match o with | none => "none" | some v => encodeAtom v
+    pure (match GridLine07.gridLine (← allSome gtok? toks) with
+      | none => "invalid"
+      | some .auto => "auto"
+      | some (.line sp num id) =>
+        "line " ++ (if sp then "span" else "none") ++ " " ++
+          (match num with | none => "none" | some n => toString n) ++ " " ++ optS id)
   | "image-computer", [fs, rfs, ex, ch, name, .list images] => do
     let ctx : Len07.FontCtx := { fontSize := ← fs.rat?, rootFontSize := ← rfs.rat?, exRatio := ← ex.rat?,
                                  chRatio := ← ch.rat? }
